@@ -305,6 +305,17 @@ def _atoms_oracle(assume: str, selfn: str, othern: str):
             return True
         if isinstance(e2, ast.Call) and call_name(e2) == "isinstance":
             return True
+        # the table theorems are about two descriptors of ONE class (the
+        # cross-class case is R-DESC-CLASS): class identity holds
+        if isinstance(e2, ast.Compare) and len(e2.ops) == 1:
+            tl, tr = norm(e2.left), norm(e2.comparators[0])
+            cls_of = {f"type({selfn})": 1, f"{selfn}.__class__": 1,
+                      f"type({othern})": 2, f"{othern}.__class__": 2}
+            if {cls_of.get(tl), cls_of.get(tr)} == {1, 2}:
+                if isinstance(e2.ops[0], (ast.Is, ast.Eq)):
+                    return True
+                if isinstance(e2.ops[0], (ast.IsNot, ast.NotEq)):
+                    return False
         return None
     return oracle
 
@@ -759,6 +770,55 @@ def _anc(node):
     return ancestors(node)
 
 
+def check_desc_class(prog: Program, res: Result) -> None:
+    res.rule("R-DESC-CLASS", "descriptor equality is decided with the "
+             "symmetry table of the LEFT operand only, so it must first "
+             "reject an operand of another descriptor class (identity test "
+             "on type() / __class__): otherwise TrigonalBipyramidal(t, 1) == "
+             "AtropBond(t, 1) holds with different hashes and `==` is not "
+             "symmetric across classes")
+    seen = set()
+    for name in DESCRIPTOR_CLASSES:
+        fi = prog.resolve_method(name, "__eq__")
+        if fi is None or fi.qual in seen:
+            continue
+        seen.add(fi.qual)
+        s_, o_ = fi.params()[:2]
+        inst = f"{fi.short}: operands of different descriptor classes are unequal"
+        sym = {f"type({o_}) is not type({s_})", f"type({s_}) is not type({o_})",
+               f"{o_}.__class__ is not {s_}.__class__",
+               f"{s_}.__class__ is not {o_}.__class__",
+               f"type({o_}) != type({s_})", f"type({s_}) != type({o_})",
+               f"{o_}.__class__ != {s_}.__class__",
+               f"{s_}.__class__ != {o_}.__class__"}
+        ok = False
+        for n in fi.node.body:
+            # the guard must come before the first table comparison
+            if isinstance(n, ast.If) and any(
+                    isinstance(b, ast.Return) and norm(b.value) in (
+                        "False", "NotImplemented") for b in n.body):
+                tests = [n.test]
+                if isinstance(n.test, ast.BoolOp) and isinstance(
+                        n.test.op, ast.Or):
+                    tests = n.test.values
+                if any(norm(t) in sym for t in tests):
+                    ok = True
+                    break
+            if any(isinstance(x, ast.Call) and isinstance(
+                    x.func, ast.Attribute) and x.func.attr == "_perm_atoms"
+                   for x in ast.walk(n)):
+                break
+        if ok:
+            res.ok("R-DESC-CLASS", inst, fi.loc())
+        else:
+            res.bad("R-DESC-CLASS", f"{fi.short}: no class guard", fi.loc(),
+                    f"{inst}: no `type(other) is not type(self)` guard before "
+                    "the table comparison: descriptors of two classes with "
+                    "the same number of atoms and parity domain (e.g. "
+                    "TrigonalBipyramidal / AtropBond) compare equal with "
+                    "different hashes, and asymmetrically", instance=inst)
+
+
 def run(prog: Program, res: Result, tier: str) -> None:
     res.trusted += [
         "idealised figures (position -> exact coordinates) in sa/tables.py, "
@@ -780,6 +840,7 @@ def run(prog: Program, res: Result, tier: str) -> None:
         check_perm_helpers(prog, res, name)
     check_immutable(prog, res)
     check_placeholder_safe(prog, res)
+    check_desc_class(prog, res)
     res.exhaustive = True
     res.extra["resolved_implementations"] = sorted(seen_impl)
     res.need("T-ROT", res.count("T-ROT"), 58, "table rows")
